@@ -29,6 +29,7 @@ type wOpts struct {
 	cmd     bool // launch through exec.Cmd and the real CmdRunner (else RunnerFunc)
 	allowed int  // 0 default (nil -> net/rpc only), 1 both, 2 gRPC only
 	xlate   bool // custom runner with host and plugin in different file-system namespaces
+	noStart int  // 1: fork/exec fails (cmd) or the custom runner's Start fails; 2: RunnerFunc itself returns an error
 	oldLine int  // 0: real Serve; 1: a plugin that prints a six-field gRPC line (no multiplexing support) and waits
 	delay   int64
 }
@@ -104,6 +105,7 @@ func wSetup(o wOpts) *wWorld {
 	}
 	if o.cmd {
 		cfg.Cmd = wCommand(w.p)
+		wCmdG[cfg.Cmd].execFails = o.noStart == 1
 	} else {
 		wNamespaces = o.xlate
 		cfg.RunnerFunc = func(l hclog.Logger, cmd *exec.Cmd, tmp string) (runner.Runner, error) {
@@ -113,7 +115,10 @@ func wSetup(o wOpts) *wWorld {
 					vSetenvProc(w.p.id, k, v)
 				}
 			}
-			return &wRunner{p: w.p, xlate: o.xlate}, nil
+			if o.noStart == 2 {
+				return nil, errors.New("runner: cannot be created")
+			}
+			return &wRunner{p: w.p, xlate: o.xlate, startFails: o.noStart == 1}, nil
 		}
 	}
 	w.c = NewClient(cfg)
@@ -540,6 +545,55 @@ func wBehave(w *wWorld, behaviour int, d int64) {
 	case 2:
 		w.p.main = func() { inner(); <-wNever }
 	}
+}
+
+// harnessC04neverStarted: the launch itself fails -- fork/exec fails under the real CmdRunner, the custom runner's
+// Start fails, or RunnerFunc returns an error -- then Kill, repeated and from two goroutines at once.
+func harnessC04neverStarted() {
+	var o wOpts
+	o.allowed = 1
+	o.cmd = vChoice(2) == 1
+	o.noStart = 1
+	if !o.cmd && vChoice(2) == 1 {
+		o.noStart = 2
+	}
+	w := wSetup(o)
+	c, p := w.c, w.p
+	var err error
+	r0 := wTimed(func() error {
+		if vChoice(2) == 1 {
+			_, err = c.Client()
+		} else {
+			_, err = c.Start()
+		}
+		return nil
+	})
+	vAssert(!r0.panicked && err != nil, "C04: a launch that fails is an error, not a panic")
+	vAssert(p.started == 0, "the plugin process never existed")
+	vCover("launch-failed")
+	if vChoice(2) == 1 {
+		vCover("concurrent-kill")
+		done := make(chan struct{})
+		go func() {
+			r2 := wTimed(func() error { c.Kill(); return nil })
+			vAssert(!r2.panicked, "C04: a concurrent Kill of a never-started plugin does not panic")
+			close(done)
+		}()
+		r := wTimed(func() error { c.Kill(); return nil })
+		vAssert(!r.panicked, "C04: Kill of a never-started plugin does not panic")
+		vAssert(r.took <= 5*sec, "C04: Kill of a never-started plugin returns within a bounded time")
+		<-done
+	}
+	for i := 0; i < 2; i++ {
+		r := wTimed(func() error { c.Kill(); return nil })
+		vAssert(!r.panicked, "C04: Kill of a never-started plugin does not panic (repeated)")
+		vAssert(r.took <= 5*sec, "C04: Kill of a never-started plugin returns within a bounded time")
+	}
+	vAssert(p.started == 0, "C04: nothing was launched by Kill")
+	r := wTimed(func() error { CleanupClients(); return nil })
+	vAssert(!r.panicked && r.took <= 5*sec, "C04: CleanupClients over a never-started managed client returns without panicking")
+	vCover("killed")
+	vDone()
 }
 
 func harnessC04world() {
